@@ -125,7 +125,7 @@ CLAIMS = {
         "layouts interleaved with the reset and with all queries in random order and multiplicity (id-level answers vs the model), and the property itself is evaluated on the real code: a 31-query "
         "battery answered by name on the edited tree, on a tree freshly parsed from its Newick text, and a second time in another order; plus the cache PROTOCOL matrix (one cache-touching query x "
         "one kind of edit x reset x everything).",
-   note=NOTE + ARQ + "The per-node subtree_distances cache is covered by the battery, the protocol matrix and C08. The link from the freshly BUILT arena to the freshly PARSED arena (parser model) is being closed by a separate composed theorem; until then it rests on C01/C02 plus the correspondence.",
+   note=NOTE + ARQ + "The per-node subtree_distances cache is covered by the battery, the protocol matrix and C08. The statement is ONE composed theorem through the modelled writer and the modelled parser (same_answers_as_freshly_parsed: the arena is converted to the parser model's arena type, written by the modelled to_newick, parsed by the modelled from_newick with its finishing pass, converted back; every id-free answer coincides), for labels in C01's domain; outside it (a tip named 'a,b') the property fails, with a kernel-checked witness.",
    technique="Lean 4 proofs on a cache state machine + refinement of every arena query to a function of the abstract tree (layout / history independence) + differential execution of interleaved edit/query histories vs model and vs fresh parse", ref="5 C04"),
  "C11": dict(
    text="Kernel-checked theorems: prune terminates and removes exactly the chosen subtree (a slot dies iff it lies below the node; every other slot is unchanged except the parent's "
